@@ -504,6 +504,15 @@ def clip(
     if np.__version__ < "2.1.0" and a_min is None and a_max is None:  # pragma: no cover
         raise ValueError("`a_min` and `a_max` cannot both be set to `None`")
 
+    if out is not None and a_min is not None and a_max is not None:
+        # both steps write into `out`: the second one must not fail after the
+        # first one has already modified it
+        if np.broadcast_shapes(np.shape(a_max), np.shape(out)) != np.shape(out):
+            raise ValueError(
+                f"non-broadcastable output operand with shape {np.shape(out)} "
+                f"doesn't match the broadcast shape of `a_max`"
+            )
+
     if a_min is not None:
         a = maximum(a_min, a, out=out, constant=constant)
 
